@@ -318,6 +318,10 @@ class DHEat:
         def _close_socket(socket_dict: Dict[socket.socket, float], s: socket.socket) -> None:
             try:
                 s.shutdown(socket.SHUT_RDWR)
+            except OSError:  # I.e.: ENOTCONN (connection reset, or connect still in progress); the socket must be closed all the same.
+                pass
+
+            try:
                 s.close()
             except OSError:
                 pass
@@ -915,6 +919,10 @@ class DHEat:
         def _close_socket(s: socket.socket) -> None:
             try:
                 s.shutdown(socket.SHUT_RDWR)
+            except OSError:  # I.e.: ENOTCONN (connection reset, or connect still in progress); the socket must be closed all the same.
+                pass
+
+            try:
                 s.close()
             except OSError:
                 pass
